@@ -166,12 +166,12 @@ def evalBody (su : Setup) (table : List (Stream.Bytes × Option Body.J)) (fresh 
       | none => (.reject, none)
       | some v' => if su.ctx.setDefaults && !(Body.J.beq v' v) then (.rewrite fresh, some v') else (.accept, none)
 
-def runPass (su : Setup) (n : Nat) (r : Stream.Req) (st : Params.Store) (table : List (Stream.Bytes × Option Body.J)) : PassOut :=
+def runPass (su : Setup) (n : Nat) (view : Params.Store) (r : Stream.Req) (st : Params.Store) (table : List (Stream.Bytes × Option Body.J)) : PassOut :=
   let (r1, secOK, seen) := Stream.secPhase su.hasFunc r su.reqs
   let seenFull := seen.all (fun x => x == Stream.readAll r)
   if !secOK && !su.multi then { req := r1, store := st, ok := false, seenFull := seenFull, table := table }
   else
-    let (st1, pOK) := Params.paramsPhase su.skip su.multi su.params st
+    let (st1, pOK) := Params.paramsPhaseCached su.skip su.multi view su.params st
     if !pOK && !su.multi then { req := r1, store := st1, ok := false, seenFull := seenFull, table := table }
     else if su.hasBodySpec && !su.excludeBody then
       let fresh : Stream.Bytes := List.replicate (su.origBytes.length + n) n
@@ -241,9 +241,11 @@ def handle (j : Json) : Json :=
     getBody := if bodyText.isNone then .none else match getStr stm "getBody" with | "ok" => .ok origBytes | "fails" => .fails | _ => .none,
     contentLength := if clKnown then origBytes.length else -1 }
   let st0 := toStore (getArr j "store")
-  let p1 := runPass su 1 r0 st0 [(origBytes, origVal)]
-  -- the next handler reads the body; the second validation sees what it would see
-  let p2 := runPass su 2 p1.req p1.store p1.table
+  let reuse := getBool j "reuseInput"
+  let p1 := runPass su 1 st0 r0 st0 [(origBytes, origVal)]
+  -- the next handler reads the body; the second validation sees what it would see (and, when the same
+  -- RequestValidationInput is used again, the query cache of the first validation)
+  let p2 := runPass su 2 (if reuse then st0 else p1.store) p1.req p1.store p1.table
   -- spec
   let bodyActive := su.hasBodySpec && !su.excludeBody && su.ctypeOK && bodyText.isSome
   let specBody : Json := match su.schema, origVal with
@@ -262,9 +264,11 @@ def handle (j : Json) : Json :=
      | _, _ => []) ++
     (if su.params.any (fun p => Params.EmptyPresent skip p st0) then ["EmptyPresent"] else []) ++
     (if su.params.any (fun p => Params.UntypedDefault skip p) then ["UntypedDefault"] else []) ++
-    (if su.params.any (fun p => Params.SprintArrayDefault skip p st0) then ["SprintArrayDefault"] else [])
+    (if su.params.any (fun p => Params.SprintArrayDefault skip p st0) then ["SprintArrayDefault"] else []) ++
+    (if su.params.any (fun p => Params.StaleQueryCache reuse skip p st0) then ["StaleQueryCache"] else [])
   let anyReq := fun (f : Stream.Scheme → Bool) => reqs.any (fun q => q.any f)
   let branches := dedup (
+    (if reuse then ["opt.reuseInput"] else []) ++
     (if skip then ["opt.skip"] else []) ++ (if su.multi then ["opt.multi"] else []) ++
     (if su.excludeBody then ["opt.excludeBody"] else []) ++ (if ctx.roDisabled then ["opt.roDisabled"] else []) ++
     (if !su.hasFunc && !reqs.isEmpty then ["sec.nofunc"] else []) ++
